@@ -258,6 +258,8 @@ class _Sandbox:
     def __init__(self, dbname="db"):
         self.base = tempfile.mkdtemp(prefix="c51-", dir=_scratch_parent())
         self.db = os.path.join(self.base, dbname)
+        if os.path.dirname(dbname):  # a database below a parent directory with an unusual name
+            os.makedirs(os.path.join(self.base, os.path.dirname(dbname)), exist_ok=True)
         self.fs = _FS(self.base)
 
     def __enter__(self):
@@ -743,7 +745,8 @@ class DirNameCrash(_CrashBase):
              "and the nested recovery closure as in DirDBMCrash")
     functions = ["DirDBM.__init__", "DirDBM.__setitem__", "DirDBM.__delitem__", "DirDBM.keys"]
     KEYS = (b"a",)
-    NAMES = ("db", "d b", "d[b]", "d[!x]y", "d*b", "d?b")
+    # also below a parent directory whose name is special to pattern matching (seeded change C51-2)
+    NAMES = ("db", "d b", "d[b]", "d[!x]y", "d*b", "d?b", "p[1]/db", "p[!x]q/d[b]")
 
     def cases(self, tier, rng):
         if tier == "quick":
